@@ -1,153 +1,130 @@
-(* C09 - handlers finish and release everything once the peer is gone: theorems.
+(* C09 - handlers finish and release everything once the peer is gone: theorems about the
+   model of the repaired code (DummyUDPConn ends its stream; ftp: one command channel per
+   connection, passive sockets closed / on a 30 s timer / closed when replaced, ListDir
+   closes its directory; smtp: the pump ends with the connection).
 
-   The statement of the property on the model: for every service scenario [s] and every
-   connection [c] (pending segments, then client close / drained datagram wrapper /
-   silence), the handler finishes - with the explicit fuel bound [fuel_for c], linear
-   in the input - and holds nothing afterwards. *)
+   For every service scenario [s] and every connection [c] (pending segments - any bytes,
+   any segmentation - then client close / consumed datagram, or silence): *)
 From HT Require Import Common.Bytes C09.Model C09.Check C09.Proofs.
 Open Scope Z_scope.
 
+(* the handler is over within the explicit fuel bound [fuel_for c] = pending bytes + pending
+   segments + 4: it returned, or panicked and was recovered by server.handle *)
 Definition finishes (s : scn) (c : conn) : Prop := finished (h_out (handle s (fuel_for c) c)) = true.
-Definition releases (s : scn) (c : conn) : Prop := h_res (handle s (fuel_for c) c) = res0.
-Definition C09_full : Prop := forall s c, finishes s c /\ releases s c.
+(* nothing it created stays for good: whatever is still held when Handle is over sits on a
+   timer of its own (and if Handle returned normally nothing is held at all) *)
+Definition releases (s : scn) (c : conn) : Prop :=
+  kept (handle s (fuel_for c) c) = res0 /\
+  (h_out (handle s (fuel_for c) c) = Returned -> h_res (handle s (fuel_for c) c) = res0).
+(* N sequential connections leave the process as it was, for all N and all mixes *)
+Definition flat (s : scn) : Prop := forall cs, Forall (in_fragment s) cs -> history s cs = res0.
 
-(* ---- the unchanged code violates it; the classes of violations ---- *)
+(* [in_fragment s c]: the dialogue stays inside the modelled command set of ftp / smtp
+   (trivially true for the six other services, see C09_fragment_other_services) *)
+Definition C09_full : Prop :=
+  (forall s c, in_fragment s c -> finishes s c /\ releases s c) /\ (forall s, flat s).
 
-(* io.Copy over the drained datagram wrapper never ends, for any amount of fuel *)
-Theorem C09_copy_on_drained_datagram_never_returns : forall fuel wr c,
-  c_term c = TZero -> fst (io_copy fuel wr c) = OutOfFuel.
-Proof. exact io_copy_zero_spins. Qed.
+Theorem C09_terminates : forall s c, in_fragment s c -> finishes s c.
+Proof. exact handle_ends. Qed.
 
-(* ntp and echo on a datagram port: refuted for EVERY datagram; each unit of fuel is one more Read *)
-Theorem C09_terminates_ntp_echo_datagram_refuted : forall s fuel c,
-  copy_svc (sc_svc s) = true -> c_term c = TZero ->
-  h_out (handle s fuel c) = OutOfFuel /\
-  m_reads (c_m (h_conn (handle s fuel c))) = (m_reads (c_m c) + N.of_nat fuel)%N.
-Proof. exact handle_copy_spins. Qed.
+Theorem C09_released : forall s c, in_fragment s c -> releases s c.
+Proof. intros s c H; split; [apply handle_kept; exact H|apply handle_returned_clean]. Qed.
 
-(* adb on a datagram port: a datagram that starts with CNXN and carries a full header makes
-   the handler answer for ever: at least one 24-byte packet per unit of fuel *)
-Theorem C09_terminates_adb_datagram_refuted : forall fuel d m,
-  starts_with s_CNXN d = true -> (24 <= length d)%nat -> (length d <= ADBSZ)%nat ->
-  h_out (handle_adb fuel (mkConn [d] TZero m)) = OutOfFuel /\
-  (N.of_nat fuel <= m_writes (c_m (h_conn (handle_adb fuel (mkConn [d] TZero m)))))%N.
-Proof. exact handle_adb_datagram_flood. Qed.
+Theorem C09_history_flat_all : forall s, flat s.
+Proof. intros s cs; apply history_zero. Qed.
 
-(* memcached on a datagram port (since the data block of a store command is read with
-   io.ReadFull): ReadFull over bufio over the drained wrapper never ends while bytes are
-   missing - a store command announcing more bytes than the datagram holds *)
-Theorem C09_readfull_on_drained_datagram_never_returns : forall fuel want got b,
-  b_buf b = [] -> b_err b = ENone -> c_segs (b_c b) = [] -> c_term (b_c b) = TZero ->
-  (got < want)%nat -> read_full fuel want got b = None.
-Proof. exact read_full_drained_zero. Qed.
-
-(* ftp holds on to its pump goroutine after every connection whatsoever, never gives a
-   listener back, and descriptors never fall below listeners *)
-Theorem C09_released_ftp_refuted : forall v6 dial fuel c,
-  let r := h_res (handle_ftp v6 dial fuel c) in 1 <= r_gor r /\ 0 <= r_lis r /\ r_lis r <= r_fds r.
-Proof. exact handle_ftp_keeps. Qed.
-
-(* smtp: exactly one goroutine per connection, whatever was said on it *)
-Theorem C09_released_smtp_refuted : forall fuel c, h_res (handle_smtp fuel c) = mkRes 1 0 0.
-Proof. exact handle_smtp_res. Qed.
-
-Theorem C09_full_refuted : ~ C09_full.
+Theorem C09_full_holds : C09_full.
 Proof.
-  intros H. destruct (H (mkScn Smtp false false DialNone) (mkConn [] TEof m0)) as [_ Hr].
-  unfold releases, handle in Hr; cbn [sc_svc] in Hr. rewrite handle_smtp_res in Hr. discriminate.
+  split; [|exact C09_history_flat_all].
+  intros s c H; split; [apply C09_terminates|apply C09_released]; exact H.
 Qed.
 
-(* ---- and holds everywhere else ---- *)
+(* ---- what is behind it, service by service ---- *)
 
-(* outside the finding classes (ntp/echo/adb/memcached behind the datagram wrapper; ftp; smtp) every
-   handler finishes within [fuel_for c] and releases everything *)
-Theorem C09_outside_findings : forall s c, ~ finding_class s c -> finishes s c /\ releases s c.
-Proof. exact outside_findings. Qed.
+(* outside ftp and smtp every input is inside the fragment *)
+Theorem C09_fragment_other_services : forall s c,
+  sc_svc s <> Ftp -> sc_svc s <> Smtp -> in_fragment s c.
+Proof.
+  intros s c Hf Hs Hu. unfold in_fragment in *.
+  assert (finished (h_out (handle s (fuel_for c) c)) = true) as H.
+  { destruct (fuel_for_ok c) as [F1 F2].
+    destruct s as [sv u v d]; unfold handle in *; cbn [sc_svc sc_udp] in *. destruct sv; try congruence.
+    - unfold handle_ntp. pose proof (io_copy_returns (fuel_for c) false c F2).
+      destruct (io_copy (fuel_for c) false c); cbn [fst h_out mkH] in *; subst; reflexivity.
+    - unfold handle_echo. pose proof (io_copy_returns (fuel_for c) true c F2).
+      destruct (io_copy (fuel_for c) true c); cbn [fst h_out mkH] in *; subst; reflexivity.
+    - rewrite handle_dummy_returns; auto.
+    - apply handle_adb_ends; exact F2.
+    - rewrite handle_tftp_returns; auto.
+    - rewrite handle_memcached_returns; auto. }
+  rewrite Hu in H; discriminate.
+Qed.
 
-(* stream connections, closed or silent: io.Copy-based handlers return, after waiting out
-   at most one idle deadline *)
-Theorem C09_terminates_ntp_echo_stream : forall s c,
-  copy_svc (sc_svc s) = true -> c_term c <> TZero ->
-  h_out (handle s (fuel_for c) c) = Returned /\
-  (m_timeouts (c_m (h_conn (handle s (fuel_for c) c))) <= m_timeouts (c_m c) + 1)%N.
-Proof. exact handle_copy_returns. Qed.
+(* io.Copy (ntp, echo) returns on every connection *)
+Theorem C09_copy_returns : forall fuel wr c, (weight c < fuel)%nat -> fst (io_copy fuel wr c) = Returned.
+Proof. exact io_copy_returns. Qed.
 
-(* bufio-based handlers return on EVERY connection end, the drained datagram wrapper
-   included *)
-Theorem C09_terminates_bufio_services : forall s c,
-  bufio_svc (sc_svc s) = true -> h_out (handle s (fuel_for c) c) = Returned.
-Proof. exact handle_bufio_returns. Qed.
+(* the bufio-based handlers return on every connection *)
+Theorem C09_terminates_dummy : forall fuel c, (weight c + 3 <= fuel)%nat -> h_out (handle_dummy fuel c) = Returned.
+Proof. exact handle_dummy_returns. Qed.
+Theorem C09_terminates_tftp : forall fuel c, (weight c + 3 <= fuel)%nat -> h_out (handle_tftp fuel c) = Returned.
+Proof. exact handle_tftp_returns. Qed.
+Theorem C09_terminates_memcached : forall udp fuel c,
+  (weight c + 3 <= fuel)%nat -> h_out (handle_memcached udp fuel c) = Returned.
+Proof. exact handle_memcached_returns. Qed.
 
-(* memcached returns on every stream connection (closed or silent) *)
-Theorem C09_terminates_memcached_stream : forall s c,
-  sc_svc s = Memcached -> c_term c <> TZero -> h_out (handle s (fuel_for c) c) = Returned.
-Proof. exact handle_memcached_scn_returns. Qed.
-
-(* ... because of the cut-off in bufio's fill: exactly [i] empty reads, then ErrNoProgress *)
-Theorem C09_bufio_cutoff : forall i buf c,
-  c_segs c = [] -> c_term c = TZero ->
-  exists c', fill_loop i buf c = (buf, ENoProgress, c') /\ c_segs c' = [] /\ c_term c' = TZero /\
-             m_zero (c_m c') = (m_zero (c_m c) + N.of_nat i)%N /\
-             m_reads (c_m c') = (m_reads (c_m c) + N.of_nat i)%N.
-Proof. exact fill_loop_drained_zero. Qed.
-
-(* adb on stream connections finishes (returns, or panics on a timeout / short packet and
-   is recovered by server.handle) *)
-Theorem C09_terminates_adb_stream : forall fuel c,
-  c_term c <> TZero -> (weight c < fuel)%nat -> finished (h_out (handle_adb fuel c)) = true.
+(* adb finishes: returns, or panics on a timeout / short packet and is recovered *)
+Theorem C09_terminates_adb : forall fuel c, (weight c < fuel)%nat -> finished (h_out (handle_adb fuel c)) = true.
 Proof. exact handle_adb_ends. Qed.
 
-(* ftp and smtp never spin, on any connection end: ftp returns, panics (recovered) or blocks
-   in a data command; smtp returns (or the dialogue leaves the modelled fragment) *)
-Theorem C09_ftp_never_spins : forall s c,
-  sc_svc s = Ftp -> h_out (handle s (fuel_for c) c) <> OutOfFuel.
-Proof. exact handle_ftp_scn_ends. Qed.
+(* ftp: the control loop returns, panics (PASV on an IPv6 local address; recovered) or the
+   dialogue leaves the modelled command set - it neither spins nor waits for ever *)
+Theorem C09_terminates_ftp : forall v6 dial fuel c,
+  (weight c + 3 <= fuel)%nat -> ftp_end (h_out (handle_ftp v6 dial fuel c)).
+Proof. exact handle_ftp_ends. Qed.
 
-Theorem C09_terminates_smtp : forall s c,
-  sc_svc s = Smtp ->
-  (h_out (handle s (fuel_for c) c) = Returned \/ h_out (handle s (fuel_for c) c) = Unmodelled) /\
-  h_res (handle s (fuel_for c) c) = mkRes 1 0 0.
-Proof. exact handle_smtp_scn_ends. Qed.
+(* smtp returns (or the dialogue leaves the modelled fragment) *)
+Theorem C09_terminates_smtp : forall fuel c,
+  (weight c + 3 <= fuel)%nat ->
+  h_out (handle_smtp fuel c) = Returned \/ h_out (handle_smtp fuel c) = Unmodelled.
+Proof. exact handle_smtp_ends. Qed.
 
-(* the line-loop handlers wait out at most ONE idle deadline on any connection, with any
-   fuel: the first Read that times out ends dummy's loop and ftp's control loop *)
+(* idle deadlines waited out: at most one for the io.Copy handlers, dummy and ftp's control
+   loop, for any fuel *)
+Theorem C09_one_deadline_copy : forall fuel wr c,
+  (m_timeouts (c_m (snd (io_copy fuel wr c))) <= m_timeouts (c_m c) + 1)%N.
+Proof. exact io_copy_one_deadline. Qed.
 Theorem C09_one_deadline_dummy : forall fuel c,
   (m_timeouts (c_m (h_conn (handle_dummy fuel c))) <= m_timeouts (c_m c) + 1)%N.
 Proof. exact handle_dummy_one_deadline. Qed.
-
 Theorem C09_one_deadline_ftp : forall v6 dial fuel c,
   (m_timeouts (c_m (h_conn (handle_ftp v6 dial fuel c))) <= m_timeouts (c_m c) + 1)%N.
 Proof. exact handle_ftp_one_deadline. Qed.
 
-(* nothing is kept by the other services, for any fuel and connection *)
-Theorem C09_released_clean_services : forall s fuel c,
-  clean_svc (sc_svc s) = true -> h_res (handle s fuel c) = res0.
-Proof. exact handle_clean_res. Qed.
+(* ftp resources: the counters kept by the model (spawned minus released on every path) are at
+   every step exactly what the data socket in hand accounts for plus the pump; so a returning
+   control loop holds nothing, and the recovered panic holds exactly one unconnected passive
+   socket (Accept goroutine + listener), which is on its 30 s Accept deadline *)
+Theorem C09_released_ftp : forall v6 dial fuel c,
+  let h := handle_ftp v6 dial fuel c in
+  (h_out h = Returned -> h_res h = res0 /\ h_late h = res0) /\
+  (h_out h = Panicked -> h_res h = mkRes 1 1 1 /\ h_late h = mkRes 1 1 1).
+Proof. exact handle_ftp_res. Qed.
 
-(* ---- histories of sequential connections ---- *)
+(* every other service holds nothing when Handle is over, for any fuel and connection *)
+Theorem C09_released_other_services : forall s fuel c,
+  sc_svc s <> Ftp -> h_res (handle s fuel c) = res0 /\ h_late (handle s fuel c) = res0.
+Proof. exact handle_other_res. Qed.
 
+(* histories *)
 Theorem C09_history_additive : forall s a b, history s (a ++ b) = res_add (history s a) (history s b).
 Proof. exact history_app. Qed.
 
-(* N connections of the same kind hold N times what one holds: the slope the harness measures *)
-Theorem C09_history_flat : forall s c n,
-  history s (repeat c n) = res_scale (Z.of_nat n) (h_res (handle s (fuel_for c) c)).
-Proof. exact history_repeat. Qed.
+(* N connections of the same kind: slope 0, for all N *)
+Theorem C09_history_flat : forall s c n, in_fragment s c -> history s (repeat c n) = res0.
+Proof. exact history_repeat_zero. Qed.
 
-(* any history at all leaves a clean service as it was *)
-Theorem C09_history_clean_services : forall s cs, clean_svc (sc_svc s) = true -> history s cs = res0.
-Proof. exact history_clean. Qed.
-
-Theorem C09_history_smtp_grows : forall u v6 d cs,
-  history (mkScn Smtp u v6 d) cs = mkRes (Z.of_nat (length cs)) 0 0.
-Proof. exact history_smtp. Qed.
-
-Theorem C09_history_ftp_grows : forall u v6 d cs,
-  let r := history (mkScn Ftp u v6 d) cs in
-  Z.of_nat (length cs) <= r_gor r /\ 0 <= r_lis r /\ r_lis r <= r_fds r.
-Proof. exact history_ftp. Qed.
-
-(* ---- non-vacuity and concrete witnesses (replayed on the implementation by the corpus) ---- *)
+(* ---- non-vacuity and the former witnesses, now as positive examples ---- *)
 
 Definition str_USER := [85;83;69;82;32;97;110;111;110;121;109;111;117;115;13;10]%N.
 Definition str_PASS := [80;65;83;83;32;97;110;111;110;121;109;111;117;115;13;10]%N.
@@ -155,52 +132,49 @@ Definition str_PASV := [80;65;83;86;13;10]%N.
 Definition str_LIST := [76;73;83;84;13;10]%N.
 Definition str_QUIT := [81;85;73;84;13;10]%N.
 
-(* PASV never connected to, then LIST: the handler blocks for ever with the pump, the accept
-   goroutine, itself, one listener and the directory handle *)
-Example C09_ftp_passive_wait_witness :
+(* PASV never connected to, then LIST, then close: one passive-socket timeout is waited out,
+   then the handler returns and holds nothing *)
+Example C09_ftp_passive_wait_now_returns :
   let c := mkConn [str_USER; str_PASS; str_PASV; str_LIST] TEof m0 in
+  let '(o, s, _) := handle_ftp_st false DialNone (fuel_for c) c in
+  o = Returned /\ f_pwaits s = 1%N /\
+  h_res (handle (mkScn Ftp false false DialNone) (fuel_for c) c) = res0.
+Proof. vm_compute. repeat split; reflexivity. Qed.
+
+(* three PASV in a row, never connected to, client goes silent: everything is released *)
+Example C09_ftp_replaced_sockets_released :
+  let c := mkConn [str_USER; str_PASS; str_PASV; str_PASV; str_PASV] TTimeout m0 in
   let h := handle (mkScn Ftp false false DialNone) (fuel_for c) c in
-  h_out h = Blocked /\ h_res h = mkRes 3 1 2.
-Proof. vm_compute. split; reflexivity. Qed.
+  in_fragment (mkScn Ftp false false DialNone) c /\ h_out h = Returned /\ h_res h = res0 /\
+  m_timeouts (c_m (h_conn h)) = 1%N.
+Proof. split; [unfold in_fragment; vm_compute; discriminate|vm_compute; repeat split; reflexivity]. Qed.
 
-(* PASV, QUIT, client never connects: one listener and two goroutines stay behind; ten such
-   connections leave ten listeners and twenty goroutines *)
-Example C09_ftp_listener_witness :
-  let c := mkConn [str_USER; str_PASS; str_PASV; str_QUIT] TEof m0 in
-  let s := mkScn Ftp false false DialNone in
-  h_out (handle s (fuel_for c) c) = Returned /\
-  history s (repeat c 10) = mkRes 20 10 10.
-Proof. vm_compute. split; reflexivity. Qed.
+(* PASV on an IPv6 local address: recovered panic, the socket is left to its Accept deadline *)
+Example C09_ftp_ipv6_pasv_panic :
+  let c := mkConn [str_USER; str_PASS; str_PASV] TEof m0 in
+  let h := handle (mkScn Ftp false true DialNone) (fuel_for c) c in
+  h_out h = Panicked /\ h_res h = mkRes 1 1 1 /\ kept h = res0.
+Proof. vm_compute. repeat split; reflexivity. Qed.
 
-(* a closed stream to a clean bufio service: hypotheses of the positive theorems are met *)
-Example C09_nonvacuous_dummy :
-  let c := mkConn [[97;98;10;99]%N] TZero m0 in
-  ~ finding_class (mkScn Dummy true false DialNone) c /\
-  h_out (handle (mkScn Dummy true false DialNone) (fuel_for c) c) = Returned /\
-  m_zero (c_m (h_conn (handle (mkScn Dummy true false DialNone) (fuel_for c) c))) = 100%N.
-Proof.
-  split.
-  - unfold finding_class; cbn. intros [[_ [H|[H|[H|H]]]]|[H|H]]; discriminate.
-  - vm_compute. split; reflexivity.
-Qed.
-
-(* memcached datagram: 8-byte frame header, "set k 0 0 9", no data block: still reading when
-   the fuel that suffices for every terminating run is spent; other datagrams are fine *)
-Example C09_memcached_store_spin_witness :
-  let d := ([0;1;0;0;0;1;0;0] ++ [115;101;116;32;107;32;48;32;48;32;57;13;10])%N in
-  let s := mkScn Memcached true false DialNone in
-  h_out (handle s (fuel_for (mkConn [d] TZero m0)) (mkConn [d] TZero m0)) = OutOfFuel /\
-  h_out (handle s (1000 + fuel_for (mkConn [d] TZero m0)) (mkConn [d] TZero m0)) = OutOfFuel /\
-  h_out (handle s (fuel_for (mkConn [d] TEof m0)) (mkConn [d] TEof m0)) = Returned.
+(* datagrams (the consumed datagram ends the stream): ntp, echo, adb CNXN, memcached store
+   command announcing more than the datagram holds - all return *)
+Example C09_datagram_witnesses_now_return :
+  let d1 := [27;0;0;0]%N in
+  let d2 := (s_CNXN ++ repeat 0 20)%N in
+  let d3 := ([0;1;0;0;0;1;0;0] ++ [115;101;116;32;107;32;48;32;48;32;57;13;10])%N in
+  h_out (handle (mkScn Ntp true false DialNone) (fuel_for (mkConn [d1] TEof m0)) (mkConn [d1] TEof m0)) = Returned /\
+  h_out (handle (mkScn Echo true false DialNone) (fuel_for (mkConn [d1] TEof m0)) (mkConn [d1] TEof m0)) = Returned /\
+  h_out (handle (mkScn Adb true false DialNone) (fuel_for (mkConn [d2] TEof m0)) (mkConn [d2] TEof m0)) = Returned /\
+  h_out (handle (mkScn Memcached true false DialNone) (fuel_for (mkConn [d3] TEof m0)) (mkConn [d3] TEof m0)) = Returned.
 Proof. vm_compute. repeat split; reflexivity. Qed.
 
 (* smtp, silence in the middle of a command: the partial line is taken as a command after the
-   first idle deadline, the error only shows after a second one *)
+   first idle deadline, the error only shows after a second one; nothing is held *)
 Example C09_smtp_two_deadlines :
   let c := mkConn [[72;69;76;79;32;120;13;10]%N; [78;79;79]%N] TTimeout m0 in
   let h := handle (mkScn Smtp false false DialNone) (fuel_for c) c in
-  h_out h = Returned /\ m_timeouts (c_m (h_conn h)) = 2%N.
-Proof. vm_compute. split; reflexivity. Qed.
+  h_out h = Returned /\ m_timeouts (c_m (h_conn h)) = 2%N /\ h_res h = res0.
+Proof. vm_compute. repeat split; reflexivity. Qed.
 
 (* memcached, silence inside the data block of a store command: ReadFull, Discard and the
    next ReadBytes each wait out a deadline of their own *)
@@ -210,31 +184,28 @@ Example C09_memcached_three_deadlines :
   h_out h = Returned /\ m_timeouts (c_m (h_conn h)) = 3%N.
 Proof. vm_compute. split; reflexivity. Qed.
 
-Example C09_adb_flood_hypotheses :
-  let d := (s_CNXN ++ repeat 0 20)%N in
-  starts_with s_CNXN d = true /\ (24 <= length d)%nat /\ (length d <= ADBSZ)%nat.
-Proof. cbv zeta. split; [vm_compute; reflexivity|]. split; apply Nat.leb_le; vm_compute; reflexivity. Qed.
+(* the fragment hypothesis is not vacuous for ftp/smtp, and it does exclude something *)
+Example C09_fragment_nonvacuous :
+  in_fragment (mkScn Smtp false false DialNone) (mkConn [[72;69;76;79;32;120;13;10]%N] TEof m0) /\
+  ~ in_fragment (mkScn Ftp false false DialNone) (mkConn [[80;79;82;84;32;49;13;10]%N] TEof m0).
+Proof. unfold in_fragment; split; vm_compute; [discriminate|intros H; apply H; reflexivity]. Qed.
 
-Print Assumptions C09_copy_on_drained_datagram_never_returns.
-Print Assumptions C09_terminates_ntp_echo_datagram_refuted.
-Print Assumptions C09_terminates_adb_datagram_refuted.
-Print Assumptions C09_readfull_on_drained_datagram_never_returns.
-Print Assumptions C09_released_ftp_refuted.
-Print Assumptions C09_released_smtp_refuted.
-Print Assumptions C09_full_refuted.
-Print Assumptions C09_outside_findings.
-Print Assumptions C09_terminates_ntp_echo_stream.
-Print Assumptions C09_terminates_bufio_services.
-Print Assumptions C09_terminates_memcached_stream.
-Print Assumptions C09_bufio_cutoff.
-Print Assumptions C09_terminates_adb_stream.
-Print Assumptions C09_ftp_never_spins.
+Print Assumptions C09_terminates.
+Print Assumptions C09_released.
+Print Assumptions C09_history_flat_all.
+Print Assumptions C09_full_holds.
+Print Assumptions C09_fragment_other_services.
+Print Assumptions C09_copy_returns.
+Print Assumptions C09_terminates_dummy.
+Print Assumptions C09_terminates_tftp.
+Print Assumptions C09_terminates_memcached.
+Print Assumptions C09_terminates_adb.
+Print Assumptions C09_terminates_ftp.
 Print Assumptions C09_terminates_smtp.
+Print Assumptions C09_one_deadline_copy.
 Print Assumptions C09_one_deadline_dummy.
 Print Assumptions C09_one_deadline_ftp.
-Print Assumptions C09_released_clean_services.
+Print Assumptions C09_released_ftp.
+Print Assumptions C09_released_other_services.
 Print Assumptions C09_history_additive.
 Print Assumptions C09_history_flat.
-Print Assumptions C09_history_clean_services.
-Print Assumptions C09_history_smtp_grows.
-Print Assumptions C09_history_ftp_grows.
